@@ -351,7 +351,49 @@ func ruleVALTOTAL(c *Ctx, r *Report) {
 		r.ok(rule, "Validate|missing-validator", c.pos(validate.Pos()), "not-found edge returns an error")
 	}
 	if recL && recR {
-		r.ok(rule, "Validate|recursion", c.pos(validate.Pos()), "visits Left and Right")
+		// and on every path that accepts an *Expression node both recursive calls are made
+		okAll := true
+		for _, p := range paths {
+			if p.Ret == nil {
+				continue
+			}
+			isNode := false
+			for _, a := range p.Atoms {
+				if a.Kind == "type" && a.Pos && a.Subj == "$0" && a.Val == "*expr.Expression" {
+					isNode = true
+				}
+			}
+			if !isNode {
+				continue
+			}
+			rv := c.resolve(p.Ret.Results[0], p.Env)
+			var calls []string
+			for _, in := range p.Instrs {
+				if call, ok := in.(*ssa.Call); ok && call.Call.StaticCallee() == validate {
+					calls = append(calls, c.key(call.Call.Args[0], p.Env))
+				}
+			}
+			l, rr := false, false
+			for _, k := range calls {
+				if strings.HasSuffix(k, ".Left") {
+					l = true
+				}
+				if strings.HasSuffix(k, ".Right") {
+					rr = true
+				}
+			}
+			if isNilConst(rv) && !(l && rr) {
+				okAll = false
+				r.bad(rule, "Validate|accepts-without-visiting-children", c.instrPos(p.Ret), fmt.Sprintf("Validate accepts a node on a path that does not validate both of its children (conditions: %s): an invalid sub-expression below it is never looked at", strings.Join(atomStrings(p.Atoms), " ∧ ")))
+			}
+			if call, ok := rv.(*ssa.Call); ok && call.Call.StaticCallee() == validate && !l && strings.HasSuffix(c.key(call.Call.Args[0], p.Env), ".Right") {
+				okAll = false
+				r.bad(rule, "Validate|skips-left", c.instrPos(p.Ret), "Validate returns the verdict of the right child without having validated the left child")
+			}
+		}
+		if okAll {
+			r.ok(rule, "Validate|recursion", c.pos(validate.Pos()), "visits Left and Right on every accepting path")
+		}
 	} else {
 		r.bad(rule, "Validate|recursion", c.pos(validate.Pos()), "Validate must visit both Left and Right of every node it accepts")
 	}
@@ -466,9 +508,23 @@ func ruleVALSHAPE(c *Ctx, r *Report) {
 		}
 		inRows++
 		guarded := false
+		tested := ""
 		for _, o := range row.Other {
 			if strings.HasPrefix(o, "len(") && (strings.HasSuffix(o, ">1") || strings.HasSuffix(o, ">=2")) {
 				guarded = true
+				tested = strings.TrimSuffix(strings.TrimSuffix(strings.TrimPrefix(o, "len("), ")>1"), ")>=2")
+			}
+		}
+		if guarded {
+			// the tested slice itself must be what goes into the list node
+			same := false
+			for _, a := range row.Args {
+				if a.Val != nil && strings.Contains(c.key(a.Val, row.Path.Env), "(["+tested+"])") {
+					same = true
+				}
+			}
+			if !same {
+				r.bad(rule, "expr.In|producer-list-identity", c.instrPos(row.Path.Ret), "the IN production tests the length of "+tested+" but builds the list node from something else (e.g. a filtered copy): the list can end up with fewer than two values")
 			}
 		}
 		if guarded {
@@ -480,4 +536,67 @@ func ruleVALSHAPE(c *Ctx, r *Report) {
 	if inRows == 0 {
 		r.note("no production builds IN nodes")
 	}
+}
+
+// VAL-EXACT (C05/C03): validators reject only what the documented shape excludes.
+func ruleVALEXACT(c *Ctx, r *Report) {
+	const rule = "VAL-EXACT"
+	r.doc(rule, "for every operator's validator, every path that returns an error is decided by a condition of the documented shape (missing/extra operand, non-leaf field, wrong kind of right operand, wrong operator, non-literal payload): a validator that rejects well-formed trees on any other condition makes valid queries fail to parse")
+	tb := c.readTable(pkgExpr, "validators")
+	if tb.Err != "" {
+		r.bad(rule, "table", "-", tb.Err)
+		return
+	}
+	allowed := func(a Atom) bool {
+		s := a.String()
+		switch a.Kind {
+		case "nil":
+			// presence / absence of operands and of boundary parts
+			return strings.HasPrefix(a.Subj, "$0") && !strings.Contains(a.Subj, "(") || strings.HasPrefix(a.Subj, "$0.Right.(*expr.RangeBoundary)")
+		case "type":
+			return !a.Pos && (a.Subj == "$0.Right" || a.Subj == "$0.Left")
+		case "call":
+			// negative helper predicates on an operand: leaf-ness, literal payload, list of leaves
+			if a.Pos || a.Fn == nil || !inModule(a.Fn) {
+				return false
+			}
+			return a.Val == "$0.Left" || a.Val == "$0.Right" || strings.HasPrefix(a.Val, "$0.Right.(*expr.RangeBoundary).")
+		case "cmp":
+			// operator of the node itself or of its right operand
+			return (a.Subj == "$0.Op" || a.Subj == "$0.Right.(*expr.Expression).Op") && strings.HasPrefix(a.Val, "expr.")
+		}
+		_ = s
+		return false
+	}
+	seen := map[*ssa.Function]bool{}
+	n := 0
+	for _, e := range tb.Entries {
+		if e.Fn == nil || seen[e.Fn] {
+			continue
+		}
+		seen[e.Fn] = true
+		paths, complete := c.enumPaths(e.Fn, 3000)
+		if !complete {
+			continue
+		}
+		for _, p := range paths {
+			if p.Ret == nil || len(p.Ret.Results) != 1 || isNilConst(c.resolve(p.Ret.Results[0], p.Env)) {
+				continue
+			}
+			n++
+			okLast := false
+			for _, a := range p.Last {
+				if allowed(a) {
+					okLast = true
+				}
+			}
+			key := fmt.Sprintf("%s|error@%s", fnName(e.Fn), c.retOrdinal(e.Fn, p.Ret))
+			if okLast {
+				r.ok(rule, key, c.instrPos(p.Ret), strings.Join(atomStrings(p.Last), " ∧ "))
+			} else {
+				r.bad(rule, fnName(e.Fn)+"|undocumented-rejection|"+strings.Join(atomStrings(p.Last), "∧"), c.instrPos(p.Ret), fmt.Sprintf("%s rejects a node on the condition [%s], which is not part of the documented shape of that operator: well-formed queries (e.g. an operator applied to another operator's result) fail to parse or render", fnName(e.Fn), strings.Join(atomStrings(p.Last), " ∧ ")))
+			}
+		}
+	}
+	r.floor(rule, "error paths of validators", n, 30)
 }
